@@ -92,7 +92,7 @@ PIECES = [
     Piece("assign-noexpr", "{% assign %}", [_tag("Nassign")]),
     Piece("assign-bad", "{% assign x %}", [_tag("Nassign"), BAD]),
     Piece("assign-rerr", "{% assign y = 1 | divided_by: 0 %}", [_tag("Nassign"), _ok("(RErr EFilterArg)")]),
-    Piece("echo", "{% echo o %}", lambda d: [_tag("Necho"), _ok(_val(DATAS[d]["o"], 1))]),
+    Piece("echo", "{% echo o %}", lambda d: [_tag("Necho"), _ok(_var(DATAS[d]["o"], 1))]),
     Piece("echo-noexpr", "{% echo %}", [_tag("Necho")]),
     Piece("unknown", "{% nosuch %}", [_tag("Nunknown")]),
     Piece("unknown-expr", "{% nosuch x %}", [_tag("Nunknown"), _ok(_val("", 0))]),
@@ -387,6 +387,22 @@ def gen_groups(ck: Check):
                 seqs = [pre + t for t in itertools.product(ids, repeat=k - j)]
                 term = f"map (app [{'; '.join(map(str, pre))}]) (seqs {g_ids} {k - j})" if j else f"seqs {g_ids} {k}"
                 yield lim, f"exhaustive.alphabet{len(ids)}.len{k}.limit{lim}", term, seqs
+    # fixed sequences: past correspondence mismatches and translate blocks with tags inside
+    fixed = [
+        (1, ["decrement-bad", "translate", "echo", "plural", "elsif", "increment", "endif", "endif", "endfor", "when-noexpr"]),
+        (30, ["translate", "echo", "endtranslate"]), (30, ["translate", "text", "echo", "plural", "echo", "text", "endtranslate"]),
+        (30, ["translate", "echo-noexpr", "endtranslate"]), (30, ["translate", "cycle", "endtranslate"]), (30, ["translate", "out-rerr", "endtranslate"]),
+        (30, ["translate", "if", "text", "endif", "endtranslate", "text"]), (30, ["translate", "if", "text", "endtranslate", "text"]),
+        (1, ["translate", "if", "text", "endif", "endtranslate", "text"]), (1, ["if", "translate", "text", "endtranslate", "endif", "text"]),
+        (30, ["translate", "text", "plural", "for", "text", "endfor", "endtranslate", "text"]), (30, ["translate", "text", "plural", "unknown", "text"]),
+        (30, ["translate", "unknown", "plural", "text", "endtranslate", "text"]), (30, ["translate", "out", "out-cap", "raw", "endtranslate"]),
+        (30, ["translate", "comment-open", "endcomment", "endtranslate", "text"]), (30, ["translate", "liquid", "endtranslate", "text"]),
+        (30, ["translate", "assign", "endtranslate", "text"]), (30, ["for", "translate", "break", "endtranslate", "text", "endfor"]),
+        (30, ["translate-bad", "text", "endtranslate", "text"]), (30, ["translate", "text", "plural", "text", "plural", "text", "endtranslate"]),
+    ]
+    for lim in sorted({l for l, _ in fixed}):
+        seqs = [tuple(IDX[n] for n in names) for l, names in fixed if l == lim]
+        yield lim, f"fixed.limit{lim}", "[" + "; ".join("[" + "; ".join(map(str, ps)) + "]" for ps in seqs) + "]", seqs
     rng = ck.rng
     weights = [6 if PIECES[i].name in ("text", "if", "endif", "for", "endfor", "else", "elsif") else 1 for i in allp]
     for lim in (30, 1, 2):
